@@ -233,6 +233,8 @@ def _cfg(**kw):
     base["empty_track_p"] = 5
     base["subclass_p"] = 8
     base["unsorted_p"] = 6
+    base["twin_entry_p"] = 6
+    base["reuse_p"] = 6
     base["share_instruments"] = True
     base.update(kw)
     return SG.Cfg(**base)
